@@ -1184,6 +1184,49 @@ def cli_level(ctx, snap, oracle, stats, samples, nontrivial):
             ctx.broken('correspondence', 'model duplicate detection', repr(out))
 
 
+PLACEMENT_WANT = [-1, 101010, 100010, 100010, 100052, 100012, 100007, 99999, 7, 42, 11012, 0, 1, 3, 6, 0, 1007, 1009, 1012, 1006, 2013, 0, 51, 61, 23, 102,
+                  0, 3, 12, 15, 15, 500, 1001, 1001, 1001, 4102, 4102, 102, 102, 2]
+
+
+def placement(ctx, stats):
+    """Where case/default labels may stand: before a declaration and at the end of a block (C23, accepted by cproc), in an
+    unbraced switch body, inside nested blocks, loops and if/else arms of the body, in a nested unbraced switch, Duff's device,
+    `continue` inside a switch inside a loop.  corpus/c15/placement.c is run under Qbe.run (ocaml/qbe/oracle); the expected
+    output is fixed here and re-validated against gcc -std=gnu2x on every run."""
+    import c03
+    src = open(os.path.join(vlib.VERIF, 'corpus', 'c15', 'placement.c')).read()
+    want = ''.join('out_l %d\n' % v for v in PLACEMENT_WANT)
+    drv = os.path.join(ctx.tmp, 'placement_drv.c')
+    open(drv, 'w').write('#include <stdio.h>\nvoid out_l(long v) { printf("out_l %ld\\n", v); }\n')
+    cf = os.path.join(ctx.tmp, 'placement.c')
+    open(cf, 'w').write(src)
+    rc, o, e = vlib.sh('gcc -std=gnu2x -w -O1 %s %s -o %s.exe && %s.exe' % (cf, drv, cf, cf), timeout=120)
+    if rc != 0 or vlib.txt(o) != want:
+        ctx.broken('correspondence', 'placement corpus vs gcc', 'gcc -std=gnu2x gives %r (rc=%d %s)' % (vlib.txt(o)[:300], rc, vlib.txt(e)[:200]))
+        return
+    qexe = c03.build_oracle(ctx)
+    okp = True
+    for target in ('x86_64-sysv', 'aarch64', 'riscv64'):
+        rc, il, err = ctx.qbe(src, target=target, timeout=20)
+        stats['placement_runs'] = stats.get('placement_runs', 0) + 1
+        if rc != 0:
+            okp = False
+            ctx.violation('valid switch statements (labels in an unbraced body, in nested statements, before declarations) rejected on %s: %s' % (target, err[:200]),
+                          '// C15 {"expect":"accept"}\n' + src, 'c', key='valid-switch-rejected')
+            continue
+        f = os.path.join(ctx.tmp, 'placement-%s.ssa' % target)
+        open(f, 'w').write(il)
+        rc, o, e = run_limited([qexe, 'run', f, '5000000'], timeout=120, cap=8 << 20)
+        got = ''.join(l + '\n' for l in vlib.txt(o).split('\n') if l.startswith('out_l'))
+        if got != want or 'status 0' not in vlib.txt(o):
+            okp = False
+            a, b = got.split('\n'), want.split('\n')
+            k = next((j for j in range(min(len(a), len(b))) if a[j] != b[j]), min(len(a), len(b)))
+            ctx.violation('a switch reaches the wrong statement on %s: output line %d of corpus/c15/placement.c is %r, expected %r (%s)'
+                          % (target, k + 1, a[k:k + 1], b[k:k + 1], vlib.txt(o)[-60:].replace('\n', ' ')), '// C15 {"expect":"run"}\n' + src, 'c', key='wrong-case-placement')
+    ctx.ob('K-CLI:label placement corpus (unbraced bodies, labels before declarations and inside nested statements) runs as under gcc on 3 targets', okp)
+
+
 def once_per_key(ctx):
     """report each finding class once per run (the first, i.e. usually the smallest, instance); count the rest"""
     orig = ctx.violation
@@ -1213,6 +1256,7 @@ def run(ctx):
         ctx.log('unit level done')
         if os.path.exists(os.path.join(snap, 'cproc-qbe')):
             cli_level(ctx, snap, oracle, stats, samples, nontrivial)
+            placement(ctx, stats)
     cov = dict(evaluations=stats.get('unit_inserts', 0) + stats['probes'] + stats['dup_templates'],
                distinct_nontrivial=len(nontrivial),
                rule='unit: insertion histories of more than 2 keys, distinct by key list (every order of <= %s distinct keys is present, so every '
